@@ -141,7 +141,7 @@ PROPS = {
         "level_text": "Each bundle (isolation matrix + random multi-file multi-package bundles biased to map-valued options, many imports and dependencies) is compiled and printed under 12 configurations - repeated runs, fresh vs reused PackageSet, reversed / shuffled order of CompilePackage calls, reversed / shuffled file and package listings, compiled twice on one set, after an unrelated bundle - and the SHA-256 of the deterministic serialisation of every FileDescriptorProto and of every printed text must be the same in all of them; in addition every worker process (16 processes, each with its own map iteration seeds) compiles the same fixed bundles and the recorded digests are compared across processes by the driver.",
         "level_note": "Determinism is observed over the configurations listed, in 16 processes per run; Go's map iteration order differs per range statement, so repetition inside a process already exposes most order dependence.",
         "rule": "one evaluation per bundle (12 configurations each); non-trivial = bundle with more than one source file; distinct by hash of the concatenated sources.",
-        "floors": ["c14:cross-process", "c14:isolation", "c14:random"] + ["c14:config:" + c for c in ["baseline", "repeat", "reused-packageset", "reused-reverse-package-order", "reused-shuffled-package-order", "reversed-file-listing", "shuffled-file-listing", "compiled-twice-on-one-set", "after-unrelated-bundle"]],
+        "floors": ["c14:cross-process", "c14:earlier-compiles", "c14:isolation", "c14:random"] + ["c14:config:" + c for c in ["baseline", "repeat", "reused-packageset", "reused-reverse-package-order", "reused-shuffled-package-order", "reversed-file-listing", "shuffled-file-listing", "compiled-twice-on-one-set", "after-unrelated-bundle"]],
         "assumptions": COMMON_ASSUMPTIONS,
     },
     "C13": {
